@@ -153,7 +153,7 @@ let bound_for (g : ogram) : int =
   let nt = List.length used and np = List.length g.ps in
   if nt <= 1 then k_len
   else if nt = 2 then (if np <= 300 then k_len else k_len - 1)
-  else (if np <= 60 then k_len else if np <= 200 then k_len - 1 else k_len - 2)
+  else (if np <= 60 then 6 else if np <= 200 then 5 else 4)
 
 let solitary_terminals (g : ogram) = List.for_all (fun (_, b) -> List.length b = 1 || List.for_all (function T _ -> false | NT _ -> true) b) g.ps
 let at_most_binary (g : ogram) = List.for_all (fun (_, b) -> List.length b <= 2) g.ps
@@ -224,8 +224,15 @@ let () =
           | _ ->
             bump ("op_" ^ opname);
             let order = match field rf "order" with Some s -> List.map name_of_string (parse_names s) | None -> [] in
-            if opname = "ELR" && List.length (dedupe order) <> List.length order then
-              mismatch !opno "fidelity" "ELR: OrderNonTerminals returned a non-terminal twice (the theorem assumes a duplicate-free order)";
+            if opname = "ELR" && field rf "order" <> None then begin
+              if List.length (dedupe order) <> List.length order then
+                mismatch !opno "fidelity" "ELR: OrderNonTerminals returned a non-terminal twice (the theorems assume a duplicate-free order)";
+              match c_cycles g with
+              | Ok g1 ->
+                if List.sort compare (List.map string_of_name g1.nonterms) <> List.sort compare (List.map string_of_name order) then
+                  mismatch !opno "fidelity" "ELR: OrderNonTerminals is not an enumeration of the non-terminals of the cycle-free grammar (assumed by C09_left_recursion_post)"
+              | _ -> ()
+            end;
             let mres = match opname with
               | "DEL" -> c_del g | "UNIT" -> c_unit g | "UNREACH" -> c_unreachable g | "CYCLES" -> c_cycles g
               | "ELR" -> c_elr order g | "LF" -> c_left_factor g | "CNF" -> c_chomsky g
